@@ -60,7 +60,8 @@ Definition o_parse_uri3 (c : case) : string -> option (string * string * string)
            | Some v => if String.eqb s v then k_uri c else None
            | None => None
            end.
-(** extractURL takes the query as sent (RawQuery; before fix: f446e16 it was Query().Encode()) *)
+(** extractURL takes the query as sent (RawQuery; before fix: f446e16 it was Query().Encode()); [None] = url.Parse
+    refuses the value ([read_uri] then cuts it at the first "?", fix: d3f6cd7) *)
 Definition o_parse_uri (c : case) : string -> option (string * string) :=
   fun s => option_map (fun t => (fst (fst t), snd t)) (o_parse_uri3 c s).
 
@@ -96,9 +97,24 @@ Definition headers_ok (c : case) : bool :=
     case (the property does not say which it is: both answers are accepted) *)
 Definition eqs (ci : bool) (a b : string) : bool := if ci then eq_ci a b else String.eqb a b.
 
+(** an encoded slash in the path: whether such a request is matched or refused (400) is the rule's
+    encoded-slash policy (C08), the harness's rule set gives no certain answer *)
+Definition starts_2f (r : string) : bool :=
+  match r with
+  | String "2" (String c _) => Ascii.eqb c "F" || Ascii.eqb c "f"
+  | _ => false
+  end.
+
+Fixpoint has_enc_slash (p : string) : bool :=
+  match p with
+  | String a r => (Ascii.eqb a "%" && starts_2f r) || has_enc_slash r
+  | EmptyString => false
+  end.
+
 Definition rule_of (ci : bool) (method scheme host rawpath : string) : option string :=
   let p := rawpath in
-  if String.eqb p "/pub/a" && eqs ci method "GET" then Some "pub"
+  if has_enc_slash p then None
+  else if String.eqb p "/pub/a" && eqs ci method "GET" then Some "pub"
   else if String.eqb p "/pst/a" && eqs ci method "POST" then Some "pst"
   else if String.eqb p "/sec/a" && eqs ci scheme "https" then Some "sec"
   else if String.eqb p "/hst/a" && eqs ci host "a.example.com" then Some "hst"
@@ -240,14 +256,19 @@ Definition prop_trusted (c : case) : bool :=
   let raw := k_raw c in
   match o_view (k_obs c) with
   | Some ov =>
-    let uri := match hdr_ci XFU raw with Some v => if nonempty v then o_parse_uri3 c v else None | None => None end in
+    let xfu := match hdr_ci XFU raw with Some v => if nonempty v then Some v else None | None => None end in
+    let uri := match xfu with Some v => o_parse_uri3 c v | None => None end in
+    (* a value url.Parse refuses: used as received (cut at the first "?") or ignored - the property does not say which *)
+    let asis := match xfu, uri with Some v, None => Some (cut_at "?" v) | _, _ => None end in
     String.eqb (ov_method ov) (override (hdr_ci XFM raw) (r_method r)) &&
     String.eqb (ov_scheme ov) (override (hdr_ci XFP raw) (scheme_ofb r)) &&
     String.eqb (ov_host ov) (override (hdr_ci XFH raw) (r_host r)) &&
-    String.eqb (ov_rawpath ov) (override (option_map (fun t => fst (fst t)) uri) (r_escpath r)) &&
+    (String.eqb (ov_rawpath ov) (override (option_map (fun t => fst (fst t)) uri) (r_escpath r)) ||
+     String.eqb (ov_rawpath ov) (override (option_map fst asis) (r_escpath r))) &&
     (* the query of the header, re-encoded or as written: the property does not say which *)
     (String.eqb (ov_query ov) (override (option_map (fun t => snd (fst t)) uri) (r_rawquery r)) ||
-     String.eqb (ov_query ov) (override (option_map snd uri) (r_rawquery r))) &&
+     String.eqb (ov_query ov) (override (option_map snd uri) (r_rawquery r)) ||
+     String.eqb (ov_query ov) (override (option_map snd asis) (r_rawquery r))) &&
     match rev (ov_ips ov) with
     | last :: front => String.eqb last (peer_host (o_split c) (r_remote r)) && announced_b raw (rev front)
     | [] => false
@@ -473,26 +494,31 @@ Definition q197 : string := "any/a".
 Definition q198 : string := "/sec/a?".
 Definition q199 : string := "/hst/a?%zz=1".
 Definition q200 : string := "*".
-Definition q201 : string := "/x".
-Definition q202 : string := "get".
-Definition q203 : string := "pub".
-Definition q204 : string := "pst".
-Definition q205 : string := "sec".
-Definition q206 : string := "hst".
-Definition q207 : string := "any".
-Definition q208 : string := "root".
-Definition q209 : string := "other".
-Definition q210 : string := "status".
-Definition q211 : string := "rule".
-Definition q212 : string := "view".
-Definition q213 : string := "resp.headers".
-Definition q214 : string := "resp.body".
-Definition q215 : string := "up.line".
-Definition q216 : string := "up.host".
-Definition q217 : string := "up.headers".
-Definition q218 : string := "up.body".
-Definition q219 : string := "log.pair".
-Definition q220 : string := "log".
+Definition q201 : string := "/pst/a%zz".
+Definition q202 : string := "/a%2Fb%zz?x=1".
+Definition q203 : string := "/any/a?q=%zz".
+Definition q204 : string := "/sec/a%?y=2".
+Definition q205 : string := "%zz?x=1".
+Definition q206 : string := "/x".
+Definition q207 : string := "get".
+Definition q208 : string := "pub".
+Definition q209 : string := "pst".
+Definition q210 : string := "sec".
+Definition q211 : string := "hst".
+Definition q212 : string := "any".
+Definition q213 : string := "root".
+Definition q214 : string := "other".
+Definition q215 : string := "status".
+Definition q216 : string := "rule".
+Definition q217 : string := "view".
+Definition q218 : string := "resp.headers".
+Definition q219 : string := "resp.body".
+Definition q220 : string := "up.line".
+Definition q221 : string := "up.host".
+Definition q222 : string := "up.headers".
+Definition q223 : string := "up.body".
+Definition q224 : string := "log.pair".
+Definition q225 : string := "log".
 (* END aliases *)
 
 (* short constructors for the generated case files *)
